@@ -174,7 +174,11 @@ func run(lin bool, comp string, seed int64, threads, nops int) {
 	for _, r := range recs {
 		h = append(h, r...)
 	}
-	report(h, c.Model(), comp == "buffer")
+	extra := ""
+	if b, ok := c.(*bufComp); ok {
+		extra = b.dagToken()
+	}
+	report(h, c.Model(), comp == "buffer", extra)
 }
 
 func overlapping(h []rec) int {
@@ -207,7 +211,7 @@ func histTokens(h []rec) string {
 	return strings.Join(out, " ")
 }
 
-func report(h []rec, m seqModel, isBuffer bool) {
+func report(h []rec, m seqModel, isBuffer bool, extra string) {
 	ok := linearizable(h, m)
 	why := ""
 	if !ok && isBuffer {
@@ -233,7 +237,7 @@ func report(h []rec, m seqModel, isBuffer bool) {
 			why = " why=eb-unlocked-read-mid-push"
 		}
 	}
-	fmt.Printf("lin=%d ops=%d ovl=%d%s H %s\n", b2i(ok), len(h), overlapping(h), why, histTokens(h))
+	fmt.Printf("lin=%d ops=%d ovl=%d%s%s H %s\n", b2i(ok), len(h), overlapping(h), why, extra, histTokens(h))
 }
 
 func b2i(b bool) int {
